@@ -241,7 +241,7 @@ fn arbitrary() -> impl Strategy<Value = Arbitrary> {
         body,
         // Causal headers with two or more `previous` hashes do not have a deterministic encoding
         // on a tree with the C02 defect; their (in)validity is C02's subject, not C01's.
-        ext_spec().prop_map(|e| match e {
+        prop_oneof![1 => Just(ExtSpec::Unit), 4 => ext_spec()].prop_map(|e| match e {
             ExtSpec::NodeCausal { log, ts, mut previous } => {
                 previous.truncate(1);
                 ExtSpec::NodeCausal { log, ts, previous }
